@@ -341,7 +341,69 @@ func checkC01(c c01Case) error {
 		stats.Class("marshal-refused/" + shortErr(err))
 		return nil
 	}
-	return c01Decoded(spec, wire, vs)
+	if err := c01Decoded(spec, wire, vs); err != nil {
+		return err
+	}
+	// re-issue: the same in-memory message (already signed and encoded once) gets another protected
+	// parameter, its signatures are cleared and it is signed and encoded again
+	anyGroups := len(spec.Groups) > 0
+	for _, s := range spec.Sigs {
+		anyGroups = anyGroups || len(s.Groups) > 0
+	}
+	if target == m && !c.RawBody && !anyGroups {
+		h := m.headers()
+		if h.Protected == nil {
+			h.Protected = cose.ProtectedHeader{}
+		}
+		if _, clash := h.Protected["re-issued"]; !clash {
+			h.Protected["re-issued"] = int64(1)
+			switch {
+			case m.s1 != nil:
+				m.s1.Signature = nil
+			case m.u1 != nil:
+				m.u1.Signature = nil
+			default:
+				for _, sg := range m.sm.Signatures {
+					sg.Signature = nil
+				}
+			}
+			*m.payload() = append([]byte{}, spec.Payload...)
+			if err := m.sign(ext, ss...); err != nil {
+				stats.Class("re-issue-refused/" + shortErr(err))
+				return nil
+			}
+			if err := m.verify(ext, vs...); err != nil {
+				return finding("verify-mem/re-issued", "a message that was signed and encoded, then changed and signed again does not verify in memory: %v", err)
+			}
+			if spec.Detached {
+				*m.payload() = nil
+			}
+			wire2, err := m.marshal()
+			if err != nil {
+				return finding("re-issue-unencodable", "%v", err)
+			}
+			env, err := refcose.ParseEnv(spec.Kind, wire2)
+			if err != nil {
+				return finding("roundtrip-decode", "reference cannot parse the re-issued message: %v", err)
+			}
+			found := false
+			if env.ProtMap != nil {
+				for _, kn := range env.ProtMap.Keys {
+					if kn.Major == 3 && string(kn.Content) == "re-issued" {
+						found = true
+					}
+				}
+			}
+			if !found {
+				return finding("re-issue-ignored", "the protected parameter added before signing again is missing from the emitted message\nwire=%x", wire2)
+			}
+			if err := c01Decoded(spec, wire2, vs); err != nil {
+				return err
+			}
+			stats.Class("re-issued")
+		}
+	}
+	return nil
 }
 
 func c01Decoded(spec *gen.MsgSpec, wire []byte, vs []cose.Verifier) error {
